@@ -10,7 +10,7 @@ that made it to every session of the user.
                                                them appended to its update queue
   internal/backend/connector_updates.go        userDBWrite / queueStateUpdate: connector-originated changes are queued
                                                to every state; applyMessagesCreated, applyMessageMailboxesUpdated,
-                                               applyMessageFlagsUpdated (setMessageFlags)
+                                               applyMessageFlagsUpdated (setMessageFlags), applyMessageDeleted
   internal/session/session.go                  Session.serve: between two commands the session goroutine takes ONE queued
                                                update at a time (`case update := <-GetStateUpdatesCh()`), or the next
                                                command — whichever the `select` picks.  That choice is the schedule; here it
@@ -36,7 +36,7 @@ What is abstract
 * The connector always succeeds and returns no updates of its own (the harness uses a connector without echo).
 * Row order of `GetMessagesFlags` (GROUP BY on random UUIDs) is the order of the command's message list; it only
   shows in the order of FETCH responses inside one flush, which the correspondence compares as a set per run.
-* Storage errors, limits, read-only (EXAMINE) sessions, IDLE and CLOSE are not part of this model.
+* Storage errors, limits, read-only (EXAMINE) sessions and IDLE are not part of this model.
 
 Core Lean only.
 -/
@@ -224,6 +224,8 @@ inductive ConnOp where
   | boxes (id : MsgId) (mbs : List Nat)
   /-- `MessageFlagsUpdated(id, flags)` with `flags` = the index's, except that `flag` is on / off -/
   | setFlag (id : MsgId) (flag : Flag) (on : Bool)
+  /-- `MessageDeleted(id)` (`imap.NewMessagesDeleted`): the message leaves every mailbox that holds it -/
+  | delete (id : MsgId)
 deriving DecidableEq, Repr
 
 inductive SysOp where
@@ -237,6 +239,9 @@ inductive SysOp where
   | flush (i : Nat) (permit : Bool)
   | select (i : Nat) (mb : Nat)
   | unselect (i : Nat)
+  /-- IMAP `CLOSE` of session `i` (`handleClose`): `Mailbox.Expunge` of the `\\Deleted` messages, a permitting flush in
+      the CLOSE context (nothing is announced), then `Mailbox.Close` -/
+  | close (i : Nat)
 deriving DecidableEq, Repr
 
 inductive Status where
@@ -423,6 +428,17 @@ def connEffect (idx : Index) : ConnOp → Index × List Update
     if on && !cur.contains flag then (idx.setMsgFlags id (Flags.add1 cur flag), [.remoteFlag id true flag])
     else if !on && cur.contains flag then (idx.setMsgFlags id (Flags.remove1 cur flag), [.remoteFlag id false flag])
     else (idx, [])
+  | .delete id =>
+    -- `applyMessageDeleted`: `MarkMessageAsDeletedWithRemoteID` (an UPDATE: no error when no row matches; the mark on
+    -- the `messages` row is read by nothing the model covers — only by APPEND with an internal-id header and by the
+    -- purge at logout / start — and the row stays, so a later `boxes` / `setFlag` still finds the message);
+    -- `GetMessageIDFromRemoteID`: an unknown message ends the update without error and without updates
+    if idx.nextId ≤ id then (idx, []) else
+    -- `GetMessageMailboxIDs`, then `state.RemoveMessagesFromMailbox(mailbox, [id])` mailbox by mailbox: the row is
+    -- deleted and ONE `expunge` update (MessageAndMBoxIDStateFilter) per mailbox is collected; all are queued to
+    -- every state after the transaction
+    (idx.boxesOf id).foldl (fun (acc : Index × List Update) mb =>
+      ((removeFrom acc.1 mb [id]).1, acc.2 ++ (removeFrom acc.1 mb [id]).2)) (idx, [])
 
 /-! ### the system -/
 
@@ -446,6 +462,19 @@ def endFlushes (sid : StateId) (e : Effect) (me : Sess) : Sess × Out :=
     let (m, r) := me1.flush sid false
     (m, o1.andThen r)
   else (me1, o1)
+
+/-- how `handleClose` ends after `Mailbox.Expunge`: `flush(ctx, mailbox, true, ch)` with `contexts.AsClose(ctx)` —
+    EXPUNGEs are handled but nothing is sent — then `Mailbox.Close` -> `State.close()`: snapshot and responders are
+    dropped, NOT the update queue (the trailing flush of `handleSelectedCommand` finds nothing).  If the flush fails,
+    `handleClose` returns the error before `Mailbox.Close`: the mailbox stays selected, the trailing `flush(false)` runs
+    in the plain context, the command answers NO -/
+def Sess.closeEnd (sid : StateId) (me1 : Sess) : Sess × Out :=
+  let f := Gluon.flush true true sid me1.snap me1.res
+  match f.result with
+  | .err er =>
+    let (me2, r) := ({ me1 with snap := f.snap, res := f.rem } : Sess).flush sid false
+    (me2, ({ status := .err er } : Out).andThen r)
+  | _ => ({ me1 with sel := none, snap := [], res := [] }, {})
 
 def step (s : Sys) : SysOp → Sys × Out
   | .cmd i c =>
@@ -499,6 +528,19 @@ def step (s : Sys) : SysOp → Sys × Out
       match me.sel with
       | none => (s, { status := .refused })
       | some _ => (s.setSess i { me with sel := none, snap := [], res := [] }, {})
+  | .close i =>
+    match s.sess[i]? with
+    | none => (s, { status := .refused })
+    | some me =>
+      -- `Mailbox.Expunge(ctx, nil)`: what EXPUNGE writes and hands on (`none`: no mailbox selected, NO)
+      match effect s.idx me (sidOf i) .expunge with
+      | none => (s, { status := .refused })
+      | some e =>
+        let sess1 := s.sess.mapIdx fun j sj =>
+          if j = i then sj.applyAll (sidOf i) false e.silent e.ups else sj.enqueue e.ups
+        let me1 := (sess1[i]?).getD me
+        let (me2, out) := me1.closeEnd (sidOf i)
+        ({ idx := e.idx, sess := sess1.set i me2 }, out)
 
 /-! ### what a queue will contribute; the schedule hypothesis `NoOvertake` in executable form -/
 
@@ -530,6 +572,16 @@ def opNoOvertakeB (s : Sys) : SysOp → Bool
     match s.sess[i]? with
     | none => true
     | some me => (pendOf (sidOf i) mb me.inbox).isEmpty
+  | .close i =>
+    match s.sess[i]? with
+    | none => true
+    | some me =>
+      match me.sel with
+      | none => true
+      | some mb =>
+        match effect s.idx me (sidOf i) .expunge with
+        | none => true
+        | some e => (pendOf (sidOf i) mb me.inbox).isEmpty || (pendOf (sidOf i) mb e.ups).isEmpty
   | _ => true
 
 def run (s : Sys) : List SysOp → Sys × List Out
